@@ -88,6 +88,10 @@ func genBody(spec string) []byte {
 		return zlibOf(jpegMin(n))
 	case "hex-jpeg-min":
 		return codecs.ASCIIHexEncode(jpegMin(n))
+	case "jpeg-padded": // n COM segments of 64 KiB, then a progressive frame of f[2] x f[2] pixels, f[3] components
+		dim, _ := strconv.Atoi(f[2])
+		comps, _ := strconv.Atoi(f[3])
+		return jpegPadded(n, dim, comps)
 	case "jpeg-claim": // a small JPEG whose frame header claims 65535 x 65535
 		b := jpegOf(16, 16, 0x80)
 		if i := bytes.Index(b, []byte{0xff, 0xc0}); i >= 0 {
@@ -928,4 +932,149 @@ func jpegCases(ctx *core.Ctx) []*Case {
 		}
 	}
 	return cases
+}
+
+// ---------------------------------------------------------------------------
+// JBIG2 arithmetic symbol dictionaries with refinement / aggregation
+// (SDREFAGG = 1): a page, a one-symbol dictionary, and a second dictionary
+// that imports it and defines new symbols by refining others.  The reference
+// symbol IDs come out of the arithmetic decoder, so the payload bytes are
+// varied systematically (every value of every payload byte, and random
+// payloads): forward, self and out-of-range references all occur; the header
+// counts (exported / new symbols) are varied as well, including lying ones.
+
+var jbSymbolBase = []byte{
+	0x00, 0x00, 0x00, 0x00, 0x30, 0x00, 0x01, 0x00, 0x00, 0x00, 0x13,
+	0x00, 0x00, 0x00, 0x10, 0x00, 0x00, 0x00, 0x10, 0x00, 0x00, 0x00, 0x00, 0x00,
+	0x00, 0x00, 0x00, 0x01, 0x00, 0x00,
+	0x00, 0x00, 0x00, 0x01, 0x00, 0x00, 0x01, 0x00, 0x00, 0x00, 0x13,
+	0x04, 0x00, 0x03, 0xff, 0x00, 0x00, 0x00, 0x01, 0x00, 0x00, 0x00, 0x01,
+	0x55, 0x53, 0xd6, 0x2a, 0x23, 0xff, 0xac,
+	0x00, 0x00, 0x00, 0x02, 0x00, 0x20, 0x01, 0x01, 0x00, 0x00, 0x00, 0x12,
+	0x14, 0x02, 0x03, 0xff, 0x00, 0x00, 0x00, 0x03, 0x00, 0x00, 0x00, 0x02,
+	0x55, 0x54, 0x7c, 0xfd, 0xff, 0xac,
+}
+
+func jbig2SymbolCases(ctx *core.Ctx) []*Case {
+	r := ctx.Rand("jbig2-symbols")
+	var cases []*Case
+	add := func(class string, body []byte, note string) {
+		cases = append(cases, &Case{Class: "jbig2-symbols/" + class, Filter: nm("JBIG2Decode"), Parms: none, body: body, Note: note})
+	}
+	base := jbSymbolBase
+	n := len(base)
+	add("as-given", append([]byte(nil), base...), "second dictionary refines a symbol it has not decoded yet")
+	// the second dictionary's data part: flags(2) AT(2) exported(4) new(4) payload(6) at the end of the body
+	sd2 := n - 18
+	// every value of every payload byte of both dictionaries
+	for _, at := range []int{n - 6, n - 5, n - 4, n - 3, n - 2, n - 1, sd2 - 12 - 7, sd2 - 12 - 6, sd2 - 12 - 5, sd2 - 12 - 4} {
+		step := ctx.Pick(3, 1)
+		for v := 0; v < 256; v += step {
+			b := append([]byte(nil), base...)
+			b[at] = byte(v + at%step)
+			add("payload-byte", b, fmt.Sprintf("byte %d = %#x", at, b[at]))
+		}
+	}
+	// header counts and flags of the second dictionary, with the given and with random payloads
+	for _, flags := range []uint16{0x1402, 0x0402, 0x1002, 0x0002, 0x1400, 0x1403} {
+		for _, nex := range []uint32{0, 1, 2, 3, 4, 255} {
+			for _, nnew := range []uint32{0, 1, 2, 3, 16} {
+				for rep := 0; rep < ctx.Pick(2, 6); rep++ {
+					b := append([]byte(nil), base...)
+					b[sd2], b[sd2+1] = byte(flags>>8), byte(flags)
+					copy(b[sd2+4:], []byte{byte(nex >> 24), byte(nex >> 16), byte(nex >> 8), byte(nex)})
+					copy(b[sd2+8:], []byte{byte(nnew >> 24), byte(nnew >> 16), byte(nnew >> 8), byte(nnew)})
+					if rep > 0 {
+						r.Read(b[n-6 : n-2])
+					}
+					add("counts", b, fmt.Sprintf("flags %#04x exported %d new %d", flags, nex, nnew))
+				}
+			}
+		}
+	}
+	// longer random payloads (the segment length grows with them)
+	for k := 0; k < ctx.Pick(300, 3000); k++ {
+		extra := make([]byte, 1+r.Intn(24))
+		r.Read(extra)
+		b := append([]byte(nil), base[:n-2]...)
+		b = append(b, extra...)
+		b = append(b, 0xff, 0xac)
+		b[sd2-1] = byte(18 + len(extra)) // segment data length (one byte is enough here)
+		if k%3 == 0 {
+			b[sd2+11] = byte(1 + r.Intn(6)) // number of new symbols
+			b[sd2+7] = byte(r.Intn(8))      // number of exported symbols
+		}
+		add("random-payload", b, "")
+	}
+	return cases
+}
+
+// ---------------------------------------------------------------------------
+// the budget as a function of the raw length: streams of 100 KiB .. 16 MiB
+// (padding: JPEG COM segments) whose frame header claims 140 MB .. 1.9 GB of
+// working memory for a progressive DCT frame.  The documented budget is
+// 8 MiB + min(1024 x raw length, 256 MiB): beyond 256 KiB of raw data it no
+// longer grows, so the allocation clause bounds every one of these at about
+// 270 MB however long the stream is.
+
+func jpegPadded(comSegments, dim, comps int) []byte {
+	var b bytes.Buffer
+	b.Write([]byte{0xFF, 0xD8})
+	com := make([]byte, 65533)
+	for i := 0; i < comSegments; i++ {
+		b.Write([]byte{0xFF, 0xFE, 0xFF, 0xFF})
+		b.Write(com)
+	}
+	b.Write([]byte{0xFF, 0xC2, 0x00, byte(8 + 3*comps), 0x08, byte(dim >> 8), byte(dim), byte(dim >> 8), byte(dim), byte(comps)})
+	for i := 0; i < comps; i++ {
+		b.Write([]byte{byte(i + 1), 0x11, 0x00})
+	}
+	b.Write([]byte{0xFF, 0xDA, 0x00, byte(6 + 2*comps), byte(comps)})
+	for i := 0; i < comps; i++ {
+		b.Write([]byte{byte(i + 1), 0x00})
+	}
+	b.Write([]byte{0x00, 0x00, 0x00, 0xFF, 0xD9})
+	return b.Bytes()
+}
+
+func budgetCases(ctx *core.Ctx) []*Case {
+	var cases []*Case
+	for _, pad := range []struct {
+		name string
+		segs int
+	}{{"100KiB", 2}, {"256KiB-", 3}, {"256KiB+", 5}, {"640KiB", 10}, {"1MiB", 16}, {"2MiB", 32}, {"16MiB", 256}} {
+		for _, fr := range []struct {
+			name       string
+			dim, comps int
+		}{{"claims-140MB", 6000, 1}, {"claims-484MB", 11000, 1}, {"claims-507MB", 6500, 3}, {"claims-1.9GB", 11000, 4}} {
+			if !ctx.Thorough() && (pad.segs >= 32 || fr.comps == 3) && !(pad.segs == 32 && fr.comps == 4) {
+				continue // quick: 100 KiB .. 1 MiB, and one 2 MiB case
+			}
+			cases = append(cases, &Case{Class: "budget/dct-progressive-" + fr.name + "/raw-" + pad.name, Filter: nm("DCTDecode"), Parms: none, Sub: true,
+				BodyGen: fmt.Sprintf("jpeg-padded:%d:%d:%d", pad.segs, fr.dim, fr.comps)})
+		}
+	}
+	// other formats with a long raw stream and the largest claims their headers can make
+	big := make([]byte, 1<<20)
+	for i := range big {
+		big[i] = byte(i * 7)
+	}
+	jb := genBody("jbig2-claim:0")
+	jb[13], jb[14], jb[17], jb[18] = 0x2a, 0xf8, 0x2a, 0xf8 // 11000 x 11000 page
+	cases = append(cases,
+		&Case{Class: "budget/jbig2-page-11000x11000/raw-1MiB", Filter: nm("JBIG2Decode"), Parms: none, Sub: true, body: append(append([]byte(nil), jb...), big...)},
+		&Case{Class: "budget/flate-stored-predictor-max-row/raw-1MiB", Filter: nm("FlateDecode"), Sub: true,
+			Parms: dictVal(c06.Dict{"Predictor": intVal(15), "Columns": intVal(1 << 16), "Colors": intVal(32), "BitsPerComponent": intVal(16)}), body: zlibStored(big)},
+		&Case{Class: "budget/ccitt-columns-2^20/raw-1MiB", Filter: nm("CCITTFaxDecode"), Sub: true, Parms: ccParms(4, 1<<20, 0), body: big},
+	)
+	return cases
+}
+
+// zlibStored wraps b in a zlib stream of stored (uncompressed) blocks.
+func zlibStored(b []byte) []byte {
+	var buf bytes.Buffer
+	w, _ := zlib.NewWriterLevel(&buf, zlib.NoCompression)
+	w.Write(b)
+	w.Close()
+	return buf.Bytes()
 }
